@@ -307,7 +307,7 @@ def case_chain(case):
     return viols, feats_out, counters, {"chain": f"{a}->{b}", "quantities": [f.split(":")[1] for f in feats_out]}
 
 
-DIMENSIONAL = {"atcoords", "atmasses", "cellvecs", "energy", "atgradient", "athessian", "moments", "cube"}
+DIMENSIONAL = {"atcoords", "atmasses", "cellvecs", "energy", "atgradient", "athessian", "moments", "cube", "extra"}  # extra: thermochemistry, velocities, times, ...
 
 
 def case_spec(case):
